@@ -178,8 +178,15 @@ impl StreamId {
         }
         
         // Same millisecond, increment sequence
+        let seq = last_seq.load(Ordering::Relaxed);
+        if seq == u64::MAX && prev_millis < u64::MAX {
+            // Sequence exhausted: continue in the next millisecond so that IDs keep increasing
+            last_millis.store(prev_millis + 1, Ordering::Relaxed);
+            last_seq.store(0, Ordering::Relaxed);
+            return StreamId::new(prev_millis + 1, 0);
+        }
         let seq = last_seq.fetch_add(1, Ordering::Relaxed);
-        StreamId::new(prev_millis, seq + 1)
+        StreamId::new(prev_millis, seq.wrapping_add(1))
     }
     
     pub fn min() -> Self {
